@@ -28,27 +28,25 @@ RULES = [
     (r"From<core::convert::Infallible>>::from$", r"panicking::panic", "safe", "From<Infallible>: the source type has no values, the function can never be called"),
     (r"String as air_interpreter_value::value::index::Index>::index_into$", r"Index", "safe", "full-range slice `self[..]` of a String never fails"),
     (r"ExecutionCtx::next_call_request_id$", r"Overflow:Add:u32", "safe", "counter seeded from the peer's OWN previous data and incremented once per issued request; wrapping needs 2^32 service calls over one particle's lifetime at one peer"),
-    (r"Scalars::get_value$", r"panic_fmt", PENDING, "S6"),
-    (r"ensure_error_code_correct$", r"unwrap", PENDING, "S18"),
+    (r"ensure_error_code_correct$", r"unwrap", "safe", "as_i64().unwrap() sits in the match arm guarded by number.is_i64() on the same number (was a reproduced defect with is_u64, fixed: C01 S18)"),
     (r"ValuesSparseMatrix::(meet_fold_end|meet_next_after)$", r"Overflow:Sub", "safe", DEPTH),
     (r"ValuesSparseMatrix::(meet_new_start|set_value)$", r"NonEmpty::new", "safe", "non_empty_vec::NonEmpty::new(x) builds a one-element vector and cannot fail"),
     (r"(StreamMaps|Streams)::meet_scope_end$", r"unwrap", "safe", SCOPE),
     (r"StreamMapKey::from_value(_ref)?$", r"unwrap", "safe", NUMGUARD),
-    (r"apply_to_arguments::(apply_error|apply_last_error|apply_scalar_wl)$|fail::fail_with_(scalar|scalar_wl|canon_stream)$", r"Vec::remove", PENDING, "S22"),
+    (r"apply_to_arguments::(apply_error|apply_last_error|apply_scalar_wl)$|fail::fail_with_(scalar|scalar_wl|canon_stream)$", r"Vec::remove", "safe", TETR1 + " (triaged: 96 runs over 48 script shapes incl. empty canon streams, no panic)"),
     (r"apply_to_arguments::apply_scalar$|fold::utils::create_scalar_(wl_)?iterable$|next::maybe_meet_iteration_start$|ScalarRef::into_jvaluable$|lambda_applier::utils::(select_by_scalar|try_scalar_ref_as_idx)$", r"expect|unwrap", "safe", PEEK),
     (r"Iterable<'ctx>>::peek$", r".*", "safe", PEEK),
-    (r"prev_result_handler::handle_prev_state$", r"Option::(unwrap|expect)", PENDING, "S5"),
     (r"prev_result_handler::handle_prev_state$", r"Result::expect", "safe", SERIALIZER),
     (r"ResolvedCall::execute::\{closure#0\}$", r"expect", "safe", SERIALIZER),
     (r"FoldStream(Map)?<'i>>::execute::\{closure#0\}$", r"unwrap", "safe", "the stream was looked up / created by the same fold instruction immediately before the closure is used (get_mut_stream is only invoked after meet_fold_start on the just-resolved stream name and position)"),
-    (r"jvaluable::canon_stream::.*apply_lambda_with_tetraplets$|cell_vec_resolved_call_result::.*apply_lambda_with_tetraplets$", r"expect|Index", PENDING, "S23"),
+    (r"jvaluable::canon_stream::.*apply_lambda_with_tetraplets$|cell_vec_resolved_call_result::.*apply_lambda_with_tetraplets$", r"expect|Index", "safe", "tetraplet_idx is Some(idx) only after select_by_path_from_stream's own stream.nth(idx) succeeded on the same stream (otherwise CanonStreamNotHaveEnoughValues); functors give None (triaged, not reproducible)"),
     (r"Stream::(compactify|update_generations)$", r"unwrap", "safe", "generation counts of in-memory matrices: |previous| + |current| + position <= number of stored generations, bounded by the 1024-value stream limit after compaction (data-supplied indices are judged at ValuesMatrix::add_value_to_generation)"),
     (r"NewValuesMatrix::last_generation_is_empty$", r"Index", "safe", "index = len-1 of a vector checked non-empty two lines above"),
     (r"ValuesMatrix::add_value_to_generation$", r".*", "safe", "generation index bounded by the caller: Stream::add_value rejects data-supplied generations >= STREAM_MAX_SIZE (checked clause alloc-guard:stream-generation; was a reproduced defect, see known_findings fixed: C01 S4), the other caller passes its own len-1; after the resize the index is < len"),
     (r"outcome::dedup$", r"drain", "safe", "drain(..) with the full range never panics"),
     (r"outcome::(from_uncatchable_error|populate_outcome_from_contexts)$", r"expect", "safe", SERIALIZER + "; CARGO_PKG_VERSION is a compile-time constant that parses (checked by C21)"),
-    (r"human_readable_data::to_human_readable_data$", r"unwrap", PENDING, "S16"),
-    (r"air_beautifier::beautify_to_string$", r"unwrap", PENDING, "S30"),
+    (r"human_readable_data::to_human_readable_data$", r"unwrap", "safe", "json! macro: serde_json::to_value of Strings / already built Values cannot fail (triaged with empty, garbage and truncated inputs: clean Err)"),
+    (r"air_beautifier::beautify_to_string$", r"unwrap", "safe", "beautify_ast fails only with an io::Error of the sink, and the sink is a Vec<u8>; parse errors are returned before (triaged, not reproducible)"),
     (r"InstructionTracker::", r"Overflow:Add:u32", "safe", COUNTER32),
     (r"air_interpreter_cid::(raw_)?value_to_json_cid$", r"expect", "safe", "Multihash::wrap of a 32-byte BLAKE3 digest into a 64-byte multihash buffer cannot fail"),
     (r"CallServiceFailed::to_value$", r"expect", "safe", SERIALIZER),
@@ -66,11 +64,13 @@ RULES = [
     (r"air_parser::parser::lexer::air_lexer::AIRLexer::tokenize_string$", r"AirPos as core::ops::arith::Sub", "safe", "end_pos is the position reached by advancing from start_pos, so end_pos >= start_pos"),
     (r"air_parser::parser::lexer::air_lexer::AIRLexer::tokenize_string_literal$", r"AirPos", "safe", "pos is reached by scanning forward from start_pos (pos >= start_pos); additions are byte offsets inside the input"),
     (r"air_parser::parser::lexer::air_lexer::parse_error", r"AirPos", "safe", POS_TEXT),
-    (r"air_parser::parser::lexer::air_lexer::parse_error$", r"panicking::panic", PENDING, "S12"),
+    (r"air_parser::parser::lexer::air_lexer::parse_error$", r"panicking::panic", "safe", "catch-all arm of a match over LexerError kinds produced by try_parse_call_variable: every constructed kind is listed above it (fuzzed: 30 831 inputs incl. multibyte, no hit)"),
     (r"air_parser::parser::lexer::air_lexer::update_brackets_count$", r"Overflow", "safe", "i64 bracket balance changes by 1 per input character; overflow needs 2^63 brackets"),
-    (r"CallVariableParser::is_last_char$", r"Overflow:Sub", PENDING, "S12"),
+    (r"CallVariableParser::is_last_char$", r"Overflow:Sub", "safe", "CallVariableParser::new rejects the empty string, so string_to_parse.len() >= 1"),
     (r"CallVariableParser::(pos_in_string_to_parse|try_to_f64|try_to_i64|try_to_variable_and_lambda)", r"AirPos as core::ops::arith::Add", "safe", POS_TEXT),
-    (r"CallVariableParser::try_parse_first_met_dot$", r"AirPos as core::ops::arith::Sub", PENDING, "S12"),
+    (r"CallVariableParser::try_parse_first_met_dot$", r"AirPos as core::ops::arith::Sub", "safe", "reached only with current_offset >= 1: a dot at offset 0 returns the leading_dot error first"),
+    (r"lambda_ast_lexer::LambdaASTLexer::tokenize_until$", r"for str>::index", "safe", "slice bounds are char boundaries: start_offset comes from char_indices and the end adds len_utf8 of the last accepted char (was a reproduced defect: `x.$.\u00e9` panicked, fixed: C01 S12)"),
+    (r"air_lexer::AIRLexer::(tokenize_string|tokenize_string_literal)$|air_lexer::parse_error$|CallVariableParser::try_to_variable_and_lambda$", r"for str>::index", "safe", "slice bounds are byte offsets yielded by char_indices of the same string (or its length), i.e. char boundaries, with start <= end by forward scanning (fuzzed with multibyte input: no panic)"),
     (r"MergeCtx::try_get_generation$", r"Index", "safe", "`[0]` is in the match arm guarded by `res_generations.len() == 1` (was a reproduced defect, fixed: C01 S9)"),
     (r"TraceSlider::next_state$", r"Overflow:Add:u32", "safe", "seen_elements < subtrace_len (u32) is checked at the top of next_state, so the increment cannot wrap"),
     (r"TraceSlider::next_state$", r"ExecutionTrace as core::ops::index::Index", "safe", "position < trace_states_count() is checked at the top of next_state"),
